@@ -9,6 +9,7 @@
 #include "../../sim/core.hpp"
 
 #include <cmath>
+#include <xmmintrin.h>
 #include <csignal>
 #include <cstring>
 #include <map>
@@ -28,7 +29,11 @@ namespace
         uint64_t b[32];
         // generation metadata (informational + distinct-state measure)
         int binade = 0, sign = 0, companions = 0, family = 0;
+        // ambient floating-point environment of the calling thread during the call (MXCSR): bits 0-1 rounding mode
+        // (0 nearest, 1 downward, 2 upward, 3 toward zero), bit 2 flush-to-zero, bit 3 denormals-are-zero
+        int fpenv = 0;
     };
+    const char* RNDNAME[4] = { "nearest", "downward", "upward", "towardzero" };
     using PlanT = std::vector<Op>;
 
     Counter c_calls("sim", "calls"), c_ticks("sim", "ticks(simulated_time)");
@@ -39,6 +44,7 @@ namespace
     Counter p_tick_calls("probe", "calls_that_reached_a_tick_site"), p_mixed("probe", "calls_with_mixed_lane_vectors"), p_special("probe", "calls_with_inf_nan_or_denormal_principal"),
         p_huge("probe", "calls_with_principal_magnitude_ge_2^24"), p_over100("probe", "calls_with_more_than_100_ticks");
     Counter f_mag("fault_configured", "none(property has no fault; the seeded dimension is the lane vector)");
+    Counter f_env("fault_fired", "call_in_non_default_fp_environment(rounding_mode/FTZ/DAZ)");
 
     sim::DistinctSet d_all("call_tuples"), d_tick("tick_reaching_tuples");
 
@@ -405,10 +411,15 @@ namespace
                 }
                 pool.push_back(f);
             }
+            // swarm: three quarters of the runs use the default floating-point environment; the others run in an application-set one
+            // (directed rounding as interval arithmetic uses it, flush-to-zero/denormals-are-zero as audio and ML code set them)
+            const int run_env = rng.chance(3, 4) ? 0 : (int)rng.below(16);
+            const bool env_per_op = rng.chance(1, 4);
             for (uint64_t i = 0; i < n; ++i)
             {
                 Op op;
                 op.fn = pool[rng.below(pool.size())];
+                op.fpenv = run_env && env_per_op ? (int)rng.below(16) : run_env;
                 const FnEntry& fe = table[(size_t)op.fn];
                 if (fe.tname[0] != 'f')
                 {
@@ -456,12 +467,25 @@ namespace
             Clock& c = tick_clock();
             c.begin_call();
             exceeded = false;
+            const unsigned csr_default = _mm_getcsr();
+            if (op.fpenv)
+            {
+                unsigned csr = csr_default & ~(0x6000u | 0x8000u | 0x0040u);
+                csr |= (unsigned)(op.fpenv & 3) << 13; // RC
+                if (op.fpenv & 4)
+                    csr |= 0x8000u; // FTZ
+                if (op.fpenv & 8)
+                    csr |= 0x0040u; // DAZ
+                _mm_setcsr(csr);
+                ++f_env;
+            }
             c.armed = true;
             if (setjmp(c.jb) == 0)
                 fe.call(in_a, in_b, outb);
             else
                 exceeded = true;
             c.armed = false;
+            _mm_setcsr(csr_default & ~0x3fu); // back to the default environment, sticky exception flags cleared
             ticks = c.ticks;
             last_blocks = c.blocks;
             last_block_exceeded = c.block_exceeded;
@@ -616,6 +640,8 @@ namespace
                         lb.push(fe.elem_size == 4 ? sim::json::hex32((uint32_t)op.b[i]) : sim::json::hex64(op.b[i]));
                     o.set("lanes2", lb);
                 }
+                if (op.fpenv)
+                    o.set("fpenv", Value::object().set("rounding", RNDNAME[op.fpenv & 3]).set("ftz", (op.fpenv >> 2) & 1).set("daz", (op.fpenv >> 3) & 1));
                 o.set("gen", Value::object().set("family", op.family).set("binade", op.binade).set("sign", op.sign).set("companions", op.companions));
                 arr.push(o);
             }
@@ -640,6 +666,15 @@ namespace
                 if (o.has("lanes2"))
                     for (size_t i = 0; i < o.at("lanes2").a.size() && i < 32; ++i)
                         op.b[i] = o.at("lanes2").a[i].as_u64();
+                if (o.has("fpenv"))
+                {
+                    const Value& e = o.at("fpenv");
+                    std::string r = e.get_str("rounding", "nearest");
+                    for (int k = 0; k < 4; ++k)
+                        if (r == RNDNAME[k])
+                            op.fpenv = k;
+                    op.fpenv |= (int)e.get_u64("ftz", 0) << 2 | (int)e.get_u64("daz", 0) << 3;
+                }
                 if (o.has("gen"))
                 {
                     op.family = (int)o.at("gen").get_u64("family", 0);
@@ -671,6 +706,20 @@ namespace
                 const FnEntry& fe = table[(size_t)op.fn];
                 const bool f32 = fe.elem_size == 4;
                 const uint64_t one = from_double(1.0, f32);
+                // back to the default floating-point environment, then one component at a time
+                if (op.fpenv)
+                {
+                    Plan q = p;
+                    q[i].fpenv = 0;
+                    out.push_back(q);
+                    for (int m : { 8, 4, 3 })
+                        if (op.fpenv & m)
+                        {
+                            Plan q2 = p;
+                            q2[i].fpenv = op.fpenv & ~m;
+                            out.push_back(q2);
+                        }
+                }
                 // move to the narrowest architecture that still shows it
                 for (const char* arch : { "sse2" })
                     if (strcmp(fe.arch, arch))
@@ -766,6 +815,7 @@ namespace
                     else if (fe.arity == 2)
                         for (int k = 0; k < fe.lanes; ++k)
                             op.b[k] = lane();
+                    op.fpenv = rng.chance(3, 4) ? 0 : (int)rng.below(16);
                     op.family = 10;
                     op.companions = 3;
                     op.binade = (int)centre;
